@@ -35,6 +35,13 @@ func Init(job string) (*LQClient, error) {
 		return nil, err
 	}
 
+	// Rows that are still CLAIMED were handed out by a previous run that was stopped or killed before
+	// they were finished; nothing is handed out yet at this point, so make them available again
+	if _, err := dbWrite.Exec("UPDATE urls SET status = 'FRESH', timestamp = strftime('%s', 'now') WHERE status = 'CLAIMED'"); err != nil {
+		logger.Error("error resetting claimed URLs", "err", err.Error(), "func", "lq.Init")
+		return nil, err
+	}
+
 	dbWriteSqlc := sqlc_model.New(dbWrite)
 
 	return &LQClient{
